@@ -137,7 +137,7 @@ func c02Get(g *GcsEmu, path, query string) *vRecorder {
 
 func H_C02_media() {
 	g := vNewEmuOn(vChoice("store", 0, 1))
-	name := []string{"o", "dir/sub/o.txt", "a b.c"}[vChoice("name", 0, 2)]
+	name := []string{"o", "dir/sub/o.txt", "a b.c", "r%2Fs.csv", "50%25+off"}[vChoice("name", 0, 4)] // the last two hold literal percent-escapes and a plus
 	payload := []string{"", "x", "\x00\xffbinary"}[vChoice("payload", 0, 2)]
 	vPut(g, "b", "neighbour", []byte("n"))
 	vPut(g, "b2", name, []byte("elsewhere"))
